@@ -52,3 +52,12 @@ claim("C06",
       "duplicates and votes of known equivocators are silent and add no weight; the returned bundle's votes are all for that value, senders distinct and disjoint from its equivocation pairs, weights sum >= threshold.",
       "Quick: L=4, S=2; thorough: L=4, S=3. Histories entering the tracker's own Panicf guards (too many equivocators / two values over threshold = the honest-supermajority assumption) are outside the domain; "
       "any runtime panic is a violation. Weights in [1, 2^60), threshold in [1, 2^62). Tracer/telemetry are no-ops; map iteration in insertion order.")
+
+claim("C04",
+      "The real unauthenticatedBundle.verifyAsync (and the future it returns), unauthenticatedVote.verify, unauthenticatedEquivocationVote.verify, Certificate.Authenticate and claimsToAuthenticate run on an ARBITRARY bundle: "
+      "symbolic round/period, step in {propose, soft, cert, next(,next+1)}, up to 2 votes + 1 equivocation pair (thorough 3+2) whose senders and values are SYMBOLIC selections from 4 senders / 3 values (incl. bottom), symbolic threshold, per-sender symbolic "
+      "weight, key validity window, membership failure, credential selection and per-(sender,value) signature validity. Decided both ways against an independent predicate: accepted => step != propose, senders pairwise distinct across both lists, every vote and both halves of "
+      "every pair signed for exactly the bundle's (round, period, step, value) by a selected sender inside its key window, pair values differ, no bottom in soft/cert votes, total weight >= threshold; rejected => that predicate fails (or the bundle is larger than the threshold). "
+      "Authenticate nil => additionally step == cert, round == block round, digest == block digest.",
+      "Cryptography idealised: signature / credential validity are arbitrary boolean functions of (sender, message) (tables), a signature for one message says nothing about another (single shared nondeterministic answer). "
+      "AsyncVoteVerifier.verifyVote/verifyEqVote run the real verify synchronously (execpool concurrency and cancellation are outside the check). Stubs are substituted natively through overlay hook variables for replay.")
